@@ -180,7 +180,7 @@ def valueAt (s : St) (db : DB) (p : Pos) : Res :=
     | .ok payload =>
       match decodeValue payload with
       | some v => .val v
-      | none => .err "panic:decode"
+      | none => .err "crc"     -- `validLogRecord`: chunks that do not add up to the record their header describes
     | .eof => .err "eof"
     | .err => .err "crc"
 
